@@ -27,9 +27,9 @@ for C in $CHECKS; do
   (cd "$VR" && VERIF_SEED="$SEED" ./check.sh "$C" "$TIER") >"$VR/out.$C.txt" 2>&1
   rc=$?
   end=$(date +%s)
-  { echo "check=$C tier=$TIER seed=$SEED exit=$rc wall=$((end-start))s"; grep -E "^(VIOLATION|KNOWN-FINDING|SUMMARY|BUILD-ERROR)" "$VR/out.$C.txt" | cut -c1-400 | sort | uniq -c | sort -rn | head -12; } >"$OUT"
+  { echo "check=$C tier=$TIER seed=$SEED exit=$rc wall=$((end-start))s"; grep -aE "^(VIOLATION|KNOWN-FINDING|SUMMARY|BUILD-ERROR)" "$VR/out.$C.txt" | cut -c1-400 | sort | uniq -c | sort -rn | head -12; } >"$OUT"
   # keep the first witness for the record
-  w=$(grep -m1 -oE "replay=[^ ]+" "$VR/out.$C.txt" | cut -d= -f2)
+  w=$(grep -a -m1 -oE "replay=[^ ]+" "$VR/out.$C.txt" | cut -d= -f2)
   [ -n "${w:-}" ] && [ -f "$w" ] && head -c 4000 "$w" >"$SRC/witness.$C.$TIER.json"
   echo "== $M $C $TIER: exit=$rc"; sed -n 2,6p "$OUT"
   [ $rc -ne 0 ] && rc_all=1
